@@ -260,7 +260,7 @@ def shard(args):
         if "C06" in which:
             # twins
             vtr, rec = sim.values_to_recompute, sim.recomputed_values
-            if len(vtr) != len(rec) or any(v.simulation_twin is not r or r.baseline_twin is not v for v, r in zip(vtr, rec)):
+            if len(vtr) != len(rec) or any(getattr(v, "simulation_twin", None) is not r or getattr(r, "baseline_twin", None) is not v for v, r in zip(vtr, rec)):
                 out["violations"].append({"signature": "C06:twins-not-paired", "detail": f"{len(vtr)} baseline values vs {len(rec)} simulated", "replay": replay})
             # no hour before the date, when every usage pattern is still active at the date
             if date <= min_last:
